@@ -45,6 +45,15 @@ CHECKS = {
  "C17": ("generated __eq__/__hash__/__bool__/__init__ on instances whose fields are all symbolic; single-field assignment locality on dumps, decided by z3",
          "the patched code templates run natively on symbolic field values of two instances (and of classes sharing the template); equality <=> all fields equal, hash congruence (uninterpreted function), truthiness, constructor forms and byte-locality of a symbolic single-field assignment (field = engine decision) are discharged by z3",
          "5"),
+ "C14": ("operation histories (engine-chosen) with symbolic written values; final default/parse state vs fresh universe and reference, decided by z3",
+         "histories of construct/mutate/parse/fail/dump/second-cstruct operations are engine decision variables, written values and parsed bytes are symbolic; that a later default instance is zero, that earlier instances are unchanged and that a later parse equals a fresh universe's and the reference's is discharged by z3 (aliasing shows up as a term over another instance's variable)",
+         "5"),
+ "C15": ("thread schedule as engine decision variables (controlled scheduler over real threads) combined with symbolic data, decided by z3",
+         "real threads run the real readers under a scheduler that hands over only at line events of repository code; which thread runs next at every switch point is an unconstrained engine decision (bounded pre-emptions), data bytes are symbolic; per schedule path z3 proves each thread's result equal to its sequential result for all data; violating schedules are replayed deterministically on the plain library",
+         "5"),
+ "C18": ("every split of a member sequence into add_field/commit batches (engine decision) vs the one-shot class on symbolic input, decided by z3",
+         "the real add_field/start_update/commit/_update_fields (and recompilation) are driven with engine-chosen batch boundaries; layout signature, reader kind, generated source, parse on symbolic bytes (all paths), dump and generated methods are compared with the one-shot class; forward self-reference through a pointer vs its flat equivalent",
+         "5"),
 }
 
 LEVEL_NOTE = ("trusted: CPython 3.12 semantics of the natively executed parts; the call-site rewrite (validated: repository suite passes under it); "
